@@ -169,7 +169,7 @@ def run_job(job, io):
         # sometimes pickle a treespec DERIVED from the flattened one (sub-spec, composition, constructor): those have no
         # "fresh flatten" to compare with, only the original
         derived = None
-        dv = tape.draw(10, 'derive')
+        dv = tape.draw(12, 'derive')
         if dv == 1 and spec.num_children:
             ci = tape.draw(spec.num_children, 'derive-child')
             spec, derived = spec.child(ci), 'child'
@@ -181,6 +181,16 @@ def run_job(job, io):
             spec, derived = optree.treespec_tuple([spec, optree.treespec_leaf(none_is_leaf=nil)], none_is_leaf=nil, namespace=ns), 'ctor'
         elif dv == 5:
             spec, derived = (spec.one_level() or spec), 'one_level'
+        elif dv in (10, 11):
+            # the common suffix of two treespecs whose matched nodes come from DIFFERENT members of the dict family (one of them an
+            # OrderedDict): the result node takes kind and keys from one operand, its hidden insertion-order list must follow
+            kwc = {'none_is_leaf': nil, 'namespace': ns}
+            lf = optree.treespec_leaf(none_is_leaf=nil)
+            d_spec = optree.treespec_dict({'b': lf, 'a': optree.treespec_tuple([lf, lf], **kwc)}, **kwc)
+            o_spec = optree.treespec_ordereddict([('a', lf), ('b', optree.treespec_tuple([lf, spec], **kwc))], **kwc)
+            dd_spec = optree.treespec_defaultdict(int, {'b': lf, 'a': lf}, **kwc)
+            a_, b_ = ((d_spec, o_spec), (o_spec, d_spec), (dd_spec, o_spec), (o_spec, dd_spec))[tape.draw(4, 'suffix-pair')]
+            spec, derived = a_.broadcast_to_common_suffix(b_), 'common_suffix'
         elif dv in (8, 9):
             # WIDE: more sibling sub-trees pending at one node than MAX_RECURSION_DEPTH allows levels (a size threshold that
             # belongs to depth must not leak into width); one wide node, or the siblings spread over two levels
